@@ -75,15 +75,16 @@ def _basis_checks(basis_list, coords, a, b, key, fails, gauss):
         for lo, hi in zip(brk[:-1], brk[1:]):
             for t in (0.3, 0.71):
                 x = lo + t * (hi - lo)
-                h = 1e-6 * (b - a)
+                h = 1e-4 * (hi - lo)        # relative to the local mesh width (the basis is a polynomial of low degree there)
                 try:
                     d_impl = bas.get_first_derivative(x)
                 except NotImplementedError:
                     d_impl = None
                 if d_impl is None:
                     continue
-                d_num = (bas(x + h) - bas(x - h)) / (2 * h)
-                if abs(d_impl - d_num) > 1e-5 * max(1.0, abs(d_num)) / (b - a) * (b - a):
+                xp, xm = x + h, x - h       # the step actually taken in floating point (coordinates far from the origin round it)
+                d_num = (bas(xp) - bas(xm)) / (xp - xm)
+                if abs(d_impl - d_num) > 1e-5 * max(1.0 / (hi - lo), abs(d_num)):
                     fails.append(fail("first_derivative", "basis %d at x=%r: get_first_derivative %r, central difference %r" % (bi, x, d_impl, d_num), key))
                     return
         # integral vs composite Gauss-20 on every piece
@@ -215,13 +216,17 @@ def cases(tier):
     out = []
     T1 = trees.tree_family(3 if q else 4, 5 if q else 7, 0.0, 1.0)
     T1b = trees.tree_family(3, 4, -3.0, 6.0)
+    # an interval far from the origin and strongly graded chains (mesh width tiny relative to the coordinates / to comparison tolerances)
+    T1c = trees.tree_family(3, 4, 1048576.0, 1048577.0) + trees.graded_chains(9 if q else 12, 1000.0, 1001.0, start=5)
+    T1d = trees.graded_chains(12 if q else 20, 0.0, 1.0, fractions=(0.0, 1.0 / 3.0), start=8)
     for kind in KINDS:
         for bd in (True, False):
-            for (a, b, T) in ((0.0, 1.0, T1), (-3.0, 6.0, T1b)):
+            for (a, b, T) in ((0.0, 1.0, T1), (-3.0, 6.0, T1b), (None, None, T1c), (0.0, 1.0, T1d)):
                 for t in T:
                     if not bd and len(t[0]) < 3:
                         continue
-                    out.append({"config": {"kind": "global", "basis": list(kind), "boundary": bd, "a": [a], "b": [b], "trees": [list(t)]}})
+                    aa, bb = (t[0][0], t[0][-1]) if a is None else (a, b)
+                    out.append({"config": {"kind": "global", "basis": list(kind), "boundary": bd, "a": [aa], "b": [bb], "trees": [list(t)]}})
             if kind[1] <= 3:
                 T2 = trees.all_trees_depth(2, 0.0, 1.0) + ([] if q else trees.catalan_trees(3, 0.0, 1.0, nmin=3))
                 T2b = trees.all_trees_depth(2, 2.0, 4.0) + ([] if q else trees.catalan_trees(3, 2.0, 4.0, nmin=3))
